@@ -14,6 +14,8 @@
 //	     {abstract line, records the parser returned while reading it / error} for Trace_Zone.
 //	zone hostile <out.ndjson>
 //	     structured hostile families (C07): safety observed here, histories written for Trace_Zone.
+//	zone prefixes <out.ndjson>
+//	     every prefix of every record text of lib/zoo (every RR type), see prefixes.go.
 //
 // The harness never decides what a zone denotes: it compares with the vector's expected
 // values or logs what it saw for TLC to judge.  What it does decide is what the
@@ -25,6 +27,8 @@ import (
 	"hash/fnv"
 	"math/rand"
 	"os"
+	"path"
+	"path/filepath"
 	"regexp"
 	"strconv"
 	"strings"
@@ -43,6 +47,11 @@ type outcome struct {
 	Nopen int      `json:"nopen"`
 }
 
+type fsText struct {
+	Name hx.B `json:"name"`
+	Text hx.B `json:"text"`
+}
+
 type sample struct {
 	J   int    `json:"j"`
 	Rec zg.Rec `json:"rec"`
@@ -56,6 +65,7 @@ type vec struct {
 	Explicit []zg.Line `json:"explicit"`
 	Minimal  []zg.Line `json:"minimal"`
 	Given    hx.B      `json:"given"`
+	GivenFS  []fsText  `json:"givenfs"`
 	// gen
 	Undef  bool     `json:"undef"`
 	Err    bool     `json:"err"`
@@ -89,6 +99,8 @@ func main() {
 		record(os.Args[2], n)
 	case "hostile":
 		hostile(os.Args[2])
+	case "prefixes":
+		prefixes(os.Args[2])
 	default:
 		hx.Die("unknown mode %s", os.Args[1])
 	}
@@ -221,7 +233,9 @@ func renderFS(files []zg.File, st *zg.Style, sp *speller) fstest.MapFS {
 	for _, f := range files {
 		s := st.RenderFile(f.Lines)
 		for j := range s.Lines {
-			sp.line(s.Texts[j], s.Lines[j])
+			if len(files) <= 6 || st.R == nil || st.R.Intn(4) == 0 { // (big trees: a sample of the file lines is enough)
+				sp.line(s.Texts[j], s.Lines[j])
+			}
 		}
 		m[f.Name.String()] = &fstest.MapFile{Data: s.Text}
 	}
@@ -378,7 +392,7 @@ var quotedTok = regexp.MustCompile(`: ("(?:[^"\\]|\\.)*") at line: \d+:\d+$`)
 // ":mnemonic-token" when the token it complains about spells a type / class mnemonic.
 func errClass(o *zg.Observed, rf *zg.Spelling) string {
 	kind := "include"
-	if o.PEFile == "db" {
+	if o.PEFile == rf.File {
 		kind = "none"
 		ln := 1
 		for j, t := range rf.Texts {
@@ -405,7 +419,7 @@ type spelling struct {
 }
 
 func runCfgOf(c zg.Cfg, fs fstest.MapFS) zg.RunCfg {
-	return zg.RunCfg{Origin: originText(c.Origin), DefTTL: c.DefTTL, IncAllowed: c.IncAllowed, FS: fs, File: "db", NoMem: true}
+	return zg.RunCfg{Origin: originText(c.Origin), DefTTL: c.DefTTL, IncAllowed: c.IncAllowed, FS: fs, File: c.File.String(), NoMem: true}
 }
 
 func replayZone(i int, v *vec, sum *hx.Summary, sp *speller) (nontrivial bool, nspell int) {
@@ -460,14 +474,24 @@ func replayZone(i int, v *vec, sum *hx.Summary, sp *speller) (nontrivial bool, n
 			}
 		}
 		fs := fstest.MapFS{}
-		if hasInclude(lines) { // (otherwise the include FS is never consulted)
+		var fsTexts []fsText
+		switch {
+		case s.name == "given" && len(v.GivenFS) > 0:
+			for _, f := range v.GivenFS {
+				fs[f.Name.String()] = &fstest.MapFile{Data: f.Text.Bytes()}
+			}
+		case hasInclude(lines): // (otherwise the include FS is never consulted)
 			fs = renderFS(v.Cfg.Files, st, sp)
 		}
-		o, timedOut, _ := zg.RunBudget(rf.Text, runCfgOf(v.Cfg, fs), budget)
-		cs := map[string]interface{}{"cfg": v.Cfg, "lines": v.Lines, "spelling": s.name, "text": string(rf.Text)}
-		if s.name == "given" {
-			cs["given"] = v.Given
+		for n, f := range fs {
+			fsTexts = append(fsTexts, fsText{hx.FromString(n), hx.FromBytes(f.Data)})
 		}
+		rf.File = v.Cfg.File.String()
+		o, timedOut, _ := zg.RunBudget(rf.Text, runCfgOf(v.Cfg, fs), budget)
+		// the case is the failing parse itself: the exact text and include files go with it, so that the
+		// confirmation and the replay file re-execute this spelling and not another draw of the random ones
+		cs := map[string]interface{}{"cfg": v.Cfg, "lines": lines, "spelling": s.name, "text": string(rf.Text),
+			"given": hx.FromBytes(rf.Text), "givenfs": fsTexts}
 		nspell++
 		if timedOut {
 			sum.Mis("zone/timeout", "parsing did not finish within the budget, three times", cs)
@@ -489,7 +513,56 @@ func replayZone(i int, v *vec, sum *hx.Summary, sp *speller) (nontrivial bool, n
 			sum.Sample(map[string]interface{}{"text": string(rf.Text), "records": len(o.Recs), "err": o.ErrText})
 		}
 	}
+	selfInc := false
+	for _, l := range v.Lines {
+		selfInc = selfInc || (l.K == "include" && l.File.String() == "self") // (no Open cap without an include FS)
+	}
+	if v.Cfg.IncAllowed && hasInclude(v.Lines) && !unconstrained && !selfInc && (i%7 == 0 || len(v.Cfg.File) > 2) {
+		osRun(i, v, sum)
+		nspell++
+	}
 	return !unconstrained, nspell
+}
+
+// osRun: the same zone on the real file system (no include FS): the files are written under a temporary
+// directory, the parser is given the path of the zone file, absolute $INCLUDE names get the directory as prefix.
+func osRun(i int, v *vec, sum *hx.Summary) {
+	tmp, err := os.MkdirTemp("", "zone-os-")
+	if err != nil {
+		hx.Die("tmp: %v", err)
+	}
+	defer os.RemoveAll(tmp)
+	st := &zg.Style{R: rand.New(rand.NewSource(seedFor("os", i))), Noise: false, AbsPrefix: tmp}
+	write := func(name string, data []byte) {
+		p := filepath.Join(tmp, filepath.FromSlash(strings.TrimLeft(name, "/")))
+		if err := os.MkdirAll(filepath.Dir(p), 0o755); err != nil {
+			hx.Die("tmp: %v", err)
+		}
+		if err := os.WriteFile(p, data, 0o644); err != nil {
+			hx.Die("tmp: %v", err)
+		}
+	}
+	for _, f := range v.Cfg.Files {
+		write(f.Name.String(), st.RenderFile(f.Lines).Text)
+	}
+	rf := st.RenderFile(v.Lines)
+	top := v.Cfg.File.String()
+	write(top, rf.Text)
+	rc := runCfgOf(v.Cfg, nil)
+	rc.File = filepath.Join(tmp, filepath.FromSlash(strings.TrimLeft(top, "/")))
+	rf.File = rc.File
+	o, timedOut, _ := zg.RunBudget(rf.Text, rc, budget)
+	cs := map[string]interface{}{"cfg": v.Cfg, "lines": v.Lines, "spelling": "os file system", "text": string(rf.Text)}
+	switch {
+	case timedOut:
+		sum.Mis("zone/timeout", "parsing did not finish within the budget, three times", cs)
+	case o.Panic != "":
+		sum.Mis("zone/panic", "panic: "+o.Panic, cs)
+	default:
+		if key, what := judge(v.Lines, v.Outs, &o, func() string { return errClass(&o, &rf) }); key != "" {
+			sum.Mis(key, "on the real file system (no include FS): "+what, cs)
+		}
+	}
 }
 
 func replayGen(i int, v *vec, sum *hx.Summary, sp *speller) bool {
@@ -568,7 +641,11 @@ func safety(fam string, n int, o *zg.Observed, timedOut bool, c zg.RunCfg, chain
 		sum.Mis("zone/hostile:timeout:"+fam, "parsing did not finish within the budget, three times in a row", cs)
 		return
 	case o.Panic != "":
-		sum.Mis("zone/hostile:panic", "panic: "+o.Panic, cs)
+		k := "zone/hostile:panic"
+		if strings.HasPrefix(fam, "prefix:") { // one class per record type
+			k += ":" + fam
+		}
+		sum.Mis(k, "panic: "+o.Panic, cs)
 		return
 	}
 	if o.Sticky != "" {
@@ -622,6 +699,7 @@ var pool = []string{"a", "b", "c", "x", "y", "mail", "ns", "www", "w.w", "Up", "
 type gen struct {
 	r     *rand.Rand
 	files []zg.File
+	nfile int
 }
 
 func (g *gen) labels(n int) []hx.B {
@@ -724,7 +802,28 @@ func (g *gen) generate() zg.Line {
 	return l
 }
 
-func (g *gen) lines(n, depth int) []zg.Line {
+// written: how a file at path `target' is named from a file in directory `dir': relative where that is
+// possible (and sometimes absolute all the same), absolute otherwise.
+func (g *gen) written(dir, target string) string {
+	if dir == "" && g.r.Intn(3) != 0 {
+		return target
+	}
+	if dir != "" && strings.HasPrefix(target, dir+"/") && g.r.Intn(4) != 0 {
+		return target[len(dir)+1:]
+	}
+	return "/" + target
+}
+
+func (g *gen) has(path string) bool {
+	for _, f := range g.files {
+		if f.Name.String() == path {
+			return true
+		}
+	}
+	return false
+}
+
+func (g *gen) lines(n, depth int, dir string) []zg.Line {
 	var ls []zg.Line
 	for i := 0; i < n; i++ {
 		switch x := g.r.Intn(100); {
@@ -753,14 +852,26 @@ func (g *gen) lines(n, depth int) []zg.Line {
 			case depth >= 3 || (len(g.files) > 0 && g.r.Intn(3) == 0):
 				if len(g.files) == 0 {
 					l.File = hx.FromString("missing")
-				} else {
-					l.File = g.files[g.r.Intn(len(g.files))].Name // an earlier file: no cycles
+				} else { // an earlier file: no cycles
+					l.File = hx.FromString(g.written(dir, g.files[g.r.Intn(len(g.files))].Name.String()))
 				}
 			default:
-				body := g.lines(1+g.r.Intn(4), depth+1)
-				name := hx.FromString(fmt.Sprintf("i%d.zone", len(g.files)+1))
-				g.files = append(g.files, zg.File{Name: name, Lines: body})
-				l.File = name
+				// a new file in this directory, below it, or somewhere else; decoys of the same base name elsewhere
+				g.nfile++
+				base := fmt.Sprintf("i%d.zone", g.nfile)
+				dirs := []string{dir, path.Join(dir, "d1"), "", "x", "zones/inc"}
+				tdir := dirs[g.r.Intn(len(dirs))]
+				target := path.Join(tdir, base)
+				body := g.lines(1+g.r.Intn(4), depth+1, tdir)
+				g.files = append(g.files, zg.File{Name: hx.FromString(target), Lines: body})
+				for k, d := range dirs {
+					if p := path.Join(d, base); !g.has(p) && g.r.Intn(2) == 0 {
+						decoy := zg.Line{K: "rr", Owner: zg.Ref{K: "rel", N: []hx.B{hx.FromString("decoy")}}, TTL: 5, Order: "tc", Type: 1,
+							RD: zg.RD{IP: hx.B{10, 9, 9, k}, Nm: zg.Ref{K: "omit", N: []hx.B{}}, Txt: []hx.B{}}}
+						g.files = append(g.files, zg.File{Name: hx.FromString(p), Lines: []zg.Line{decoy}})
+					}
+				}
+				l.File = hx.FromString(g.written(dir, target))
 			}
 			ls = append(ls, l)
 		}
@@ -777,8 +888,9 @@ func record(out string, n int) {
 	for z := 0; z < n; z++ {
 		sum.Evaluations++
 		g := &gen{r: r}
-		top := g.lines(2+r.Intn(8), 0)
-		cfg := zg.Cfg{DefTTL: []int{-1, -1, 0, 1800, 3600, 86400}[r.Intn(6)], IncAllowed: r.Intn(6) != 0, Files: g.files}
+		file := []string{"db", "db", "zones/db.example.org", "d1/db.zone", "/zones/inc/db"}[r.Intn(5)]
+		top := g.lines(2+r.Intn(8), 0, strings.TrimLeft(path.Dir(file), "/."))
+		cfg := zg.Cfg{DefTTL: []int{-1, -1, 0, 1800, 3600, 86400}[r.Intn(6)], IncAllowed: r.Intn(6) != 0, File: hx.FromString(file), Files: g.files}
 		switch r.Intn(6) {
 		case 0:
 			cfg.Origin = zg.NameOpt{Set: false, N: []hx.B{}}
